@@ -88,7 +88,7 @@ func c11Exec(plan *Plan, st *Stats) *Violation {
 		deep snapCanon
 	}
 	slots := map[int]saved{}
-	restored := false
+	restored, restoredPending := false, false
 	clauseFor := func(name string, gotCount int, gotVisited bool) string {
 		switch {
 		case !isNode[name]:
@@ -125,6 +125,7 @@ func c11Exec(plan *Plan, st *Stats) *Violation {
 			}
 			haveEntry = false
 			restored, sinceRestore = true, 0
+			restoredPending = true
 			if st != nil {
 				st.fault("crash_restore")
 			}
@@ -151,6 +152,10 @@ func c11Exec(plan *Plan, st *Stats) *Violation {
 				}
 				jumps++
 				sinceRestore++
+				if restoredPending && st != nil {
+					st.probe("restore_then_jump")
+					restoredPending = false
+				}
 			}
 			prev, haveEntry = name, true
 		}
